@@ -128,6 +128,20 @@ def run(chk):
                      "columns": list(df.columns)})
         chk.case(key=(cases[-1]), nontrivial=len(edges) > 0, sample=desc[-1] if len(edges) in (1, 2) and len(chk.samples) < 3 else None)
         chk.count("network." + stream)
+        if fail is None and edges and rng.random() < 0.2:
+            # call history: edit one edge's attributes in place on the same graph object (counts unchanged), export again
+            j = int(rng.integers(len(edges)))
+            d = edges[j][2]
+            d["cmi"] = (d.get("cmi") or 0.0) + 0.125
+            d["p_value"] = 0.5
+            df2 = network_to_dataframe(G, **meta)
+            chk.count("network.re_exported_after_in_place_edit")
+            got2 = (cell(df2["CMI"].iloc[j]), cell(df2["P_Value"].iloc[j]))
+            if len(df2) != len(edges) or got2 != (cell(d["cmi"]), cell(d["p_value"])):
+                chk.violation("counterexample", f"network_to_dataframe on the same graph object after an in-place change of edge {j}'s attributes "
+                              f"lists {got2} instead of ({d['cmi']}, {d['p_value']})",
+                              {"function": "network_to_dataframe", "history": "export, edit one edge in place, export again",
+                               "edge_index": j, "edges_now": [[repr(u), repr(v), dd] for u, v, dd in G.edges(data=True)]})
     lib.correspond(chk, "network_frame_vs_model", IMPORTS,
                    "list (option cell) * list (nat * nat * option Z * option Q * option Q) * list string * list (list cell)",
                    "check_network_case", cases, pf, lambda i: desc[i], shard=450, jobs=12)
